@@ -131,7 +131,7 @@ def run_translator(log, exclude=()):
     except Exception:
         known_path = ''
     rc, o = sh([RS2LEAN, os.path.join(REPO, 'src'), gen] + ([','.join(sorted(exclude))] if exclude else []), timeout=300,
-               env=dict(os.environ, RS2LEAN_KNOWN=known_path))
+               env=dict(os.environ, RS2LEAN_KNOWN=known_path, RS2LEAN_LOCALS=os.path.join(VERIF, 'local_names.tsv')))
     if rc != 0:
         out['error'] = 'rs2lean failed: ' + o[-400:]
         return out
